@@ -12,7 +12,7 @@ JUDGE : harness/threadpool.cxx drives the real pool (1..16 workers, up to hundre
 import os
 
 from vflib import core
-from vflib.core import Broken, finish, validate_trace
+from vflib.core import binding_selftest, Broken, finish, validate_trace
 
 ACTIONS = ("WTop", "WWake", "WRun", "WFin", "CAdd", "CNotify", "CCallWait", "CWait1", "CWake1", "CWait2",
            "CWake2", "CDone", "DSetStop", "DNotifyAll", "DJoin", "Spurious")
@@ -81,6 +81,23 @@ def run(ctx):
             v = validate_trace(ctx, "system/ThreadPoolTrace", TRACE_CFG % (nw, maxt), ev, name="tp", heap="8g")
             ntr += 1
             nev += len(ev)
+            if v["accepted"] and not getattr(ctx, "binding_selftests", None):
+                def wrong_result(e):
+                    # the future of a task yields another value than the task produced
+                    k = next((x for x in e if x["e"] == "FutureGet" and x["b"] == 0), None)
+                    if k is None:
+                        return False
+                    k["c"] = k["c"] + 1
+                binding_selftest(ctx, "system/ThreadPoolTrace", TRACE_CFG % (nw, maxt), ev, wrong_result,
+                                 "a recorded execution in which a future yields another value than its task produced", heap="8g")
+
+                def run_twice(e):
+                    i = next((k for k, x in enumerate(e) if x["e"] == "Dequeue"), None)
+                    if i is None:
+                        return False
+                    e.insert(i + 1, dict(e[i]))
+                binding_selftest(ctx, "system/ThreadPoolTrace", TRACE_CFG % (nw, maxt), ev, run_twice,
+                                 "a recorded execution in which a task is dequeued twice", heap="8g")
             if not samples:
                 samples = ev[:16]
             if not v["accepted"]:
